@@ -253,3 +253,56 @@ func init() {
 		rule("R9-command-provenance", ruleCmdProvenance("UpdatePromiseCommand", "CreatePromiseCommand", "CreateTaskCommand")).
 		rule("R6-cas", ruleCAS("CreatePromise", "CreatePromiseAndTask", "CompletePromise"))
 }
+
+func init() {
+	regProp("C06",
+		[]string{
+			"commit-before-acknowledge: in both backends every success return of Execute is dominated by a successful tx.Commit(), every error return by Rollback / failed Begin / failed Commit; store.Process builds completions only after Execute returned and attaches results only when err == nil; the store workers enqueue completions only from Process's return (must-pass-through on go/cfg)",
+			"one SQL transaction per Execute: every statement of every handler runs on the tx (or a statement prepared from it) (R3)",
+			"one Transaction per multi-effect operation: the completion group, routed create = the single CreatePromiseAndTask command, schedule firing = creation + advance in one command list (R5)",
+			"defaults and shutdown: Config.Reset defaults to false and Reset()/os.Remove/DROP TABLE are reachable only from Stop under `if config.Reset`; the sqlite path defaults to a file; schema statements are IF NOT EXISTS; serve stops the API and then the AIO only after Loop returned; coroutine code keeps no package-level state and each background coroutine starts from a store read (R17)",
+		},
+		[]string{"SQLite's/Postgres' own durability settings, the filesystem, kill points inside the driver", "repeated crashes during recovery; no process is started or killed"}).
+		rule("commit-before-ack", ruleExecute).
+		rule("store-process", ruleStoreProcess).
+		rule("R3-sql-origin", ruleSQLOrigin).
+		rule("R3-error-discipline", ruleErrDiscipline(storePkgs...)).
+		rule("R5-completion-group", ruleCompletionGroup).
+		rule("R5-creation-group", ruleCreationGroup).
+		rule("R5-groups", ruleWhoConstructs(groupOwners)).
+		rule("R1R2-sql-spec", ruleSQLSpec(kindList("CreatePromiseAndTask", "UpdatePromise", "CreateTasks", "DeleteCallbacks", "CompleteTasks", "UpdateSchedule"))).
+		rule("schema", ruleSchema(mergeSchemas(promiseSchema, taskSchema, lockSchema, scheduleSchema, callbackSchema))).
+		rule("R17-store-lifecycle", ruleStoreLifecycle).
+		rule("R17-serve-shutdown", ruleServeShutdown).
+		rule("R17-background", ruleBackground(false)).
+		rule("R14-coroutine-confinement", ruleCoroutineConfinement).
+		rule("R10-exactly-once", ruleExactlyOnce)
+
+	regProp("C11",
+		[]string{
+			"progress mechanism only: a background coroutine is re-added iff the API is not done, the interval elapsed and the previous instance completed; each of the five returns (nil, nil) on every path, has only bounded loops and no self call (R17)",
+			"each sweep reads a LIMITed batch bound to its configured batch size with exactly the overdue predicate, and each selected record is answered by a command that removes it from that predicate (R1/R2, R9 templates)",
+			"a selected record is skipped only for internal reasons (decoding server-written bytes, a cron expression both front ends validated); a skip on client-controlled data is reported (finding F17)",
+			"every dispatched submission is completed exactly once, also in the simulated AIO, so awaiting coroutines resume (R10)",
+		},
+		[]string{"the number of cycles (no bound is computed)", "fairness between the five coroutines", "transient-failure sequences"}).
+		rule("R17-tick", ruleTick).
+		rule("R17-background", ruleBackground(true)).
+		rule("R10-exactly-once", ruleExactlyOnce).
+		rule("R1R2-sql-spec", ruleSQLSpec(kindList("ReadPromises", "ReadSchedules", "ReadTasks", "ReadEnqueueableTasks", "TimeoutLocks", "UpdatePromise", "UpdateSchedule", "UpdateTask"))).
+		rule("R9-command-provenance", ruleCmdProvenance("ReadPromisesCommand", "ReadSchedulesCommand", "ReadTasksCommand", "ReadEnqueueableTasksCommand", "TimeoutLocksCommand", "UpdatePromiseCommand", "UpdateScheduleCommand", "UpdateTaskCommand"))
+
+	regProp("C12",
+		[]string{
+			"for each of 33 owners of a one-shot obligation (API/AIO enqueue with their wrappers, Dispatch, the kernel's SQE and CQE loops, the AddOnRequest wrapper, every subsystem/plugin Enqueue, the store/router/echo/sender/plugin workers, the Done closure, the simulated AIO flush, the front-end reply channel) every control-flow path discharges the obligation exactly once (R10)",
+			"Loop returns only under Done(); Done ⇔ api done ∧ queue empty ∧ scheduler empty; background coroutines are not added once the API is done; serve stops API then AIO only after Loop returned (R17)",
+			"the shutdown flag must be set and tested-then-sent under one lock (R14: finding F14)",
+		},
+		[]string{"arrival patterns, queue pressure, goroutine scheduling", "gocoro's scheduler (read, not analysed)"}).
+		rule("R10-exactly-once", ruleExactlyOnce).
+		rule("R17-tick", ruleTick).
+		rule("R17-serve-shutdown", ruleServeShutdown).
+		rule("R14-shutdown-flag", ruleShutdownFlag).
+		rule("store-process", ruleStoreProcess).
+		rule("R10-http-reply-once", ruleHttpReplyOnce)
+}
